@@ -218,9 +218,12 @@ type runner struct {
 	merges *mergeTracker
 	labels map[string]bool
 
-	sinkInfo peer.AddrInfo
-	repDone  atomic.Int64 // ReplicatorCompleted events seen
-	sinkDown atomic.Bool
+	sinkInfo    peer.AddrInfo
+	sinkStarted atomic.Int64
+	sinkEnded   atomic.Int64
+	foreignBase int64
+	repDone     atomic.Int64 // ReplicatorCompleted events seen
+	sinkDown    atomic.Bool
 }
 
 func timing(format string, args ...any) {
@@ -246,7 +249,28 @@ func (r *runner) waitReplicatorPushes() {
 	if r.repDone.Load() < want {
 		r.label("replicator-push-still-running-at-close")
 	}
+	// the replicator peer merges what it was pushed asynchronously: let it come to rest as well
+	// (merges started = merges completed + merges logged as failed, stable for a moment)
+	if r.sink != nil && !r.sinkDown.Load() {
+		deadline = time.Now().Add(4 * time.Second)
+		stable := 0
+		for time.Now().Before(deadline) && stable < 6 {
+			if r.sinkStarted.Load() <= r.sinkEnded.Load()+foreignMergeFailures.Load()-r.foreignBase {
+				stable++
+			} else {
+				stable = 0
+			}
+			time.Sleep(5 * time.Millisecond)
+		}
+		if stable < 6 {
+			r.label("replicator-peer-still-merging-at-close")
+		}
+	}
 }
+
+// foreignMergeFailures counts merge failures logged for merges the harness did not publish
+// (those of the replicator peer in the same process).
+var foreignMergeFailures atomic.Int64
 
 func (r *runner) fail(f *hx.Failure) {
 	r.mu.Lock()
@@ -876,6 +900,23 @@ func runOnce(c Case, rep int) (fails []*hx.Failure, labels []string, history str
 			}
 		}
 	}()
+	if r.sink != nil {
+		r.foreignBase = foreignMergeFailures.Load()
+		ssub, err := r.sink.DB.Events().Subscribe(event.MergeName, event.MergeCompleteName)
+		if err != nil {
+			hx.Harnessf("subscribe: %v", err)
+		}
+		go func() {
+			for m := range ssub.Message() {
+				switch m.Name {
+				case event.MergeName:
+					r.sinkStarted.Add(1)
+				case event.MergeCompleteName:
+					r.sinkEnded.Add(1)
+				}
+			}
+		}()
+	}
 	if c.SharedTxn {
 		r.txn, err = r.tgt.DB.NewConcurrentTxn(r.ctx, false)
 		if err != nil {
